@@ -8,8 +8,8 @@
    The quantum is not a parameter of the model at all: a time slice is an oracle input, so
    `quantum_additive` (splitting a slice in two) is a statement about the VM (vm/Vm.v), not about
    the protocol.
-   REFUTED for the code as it is: a process's knowledge of an awaited result is discarded by a
-   later await (known finding F72) — the reason `! [p1, p3]` after `!p1` can yield p3's result.
+   REFUTED for the code as it is (known finding F72): the answer to a multi-target await can be
+   overtaken by a same-worker completion — the reason `! [p1, p3]` after `!p1` can yield p3's result.
    NOT PROVED (partial): the global statement
      schedule_independence : forall P (confluent) sigma1 sigma2 (fair), the per-process results of
                              run (init nw1) sigma1 and run (init nw2) sigma2 under P's behaviour agree
@@ -61,10 +61,15 @@ Theorem C03_schedule_independence_partial :
 Proof. exact (conj worker_steps_commute (conj placement_irrelevant_local message_conservation)). Qed.
 Print Assumptions C03_schedule_independence_partial.
 
-(* F72: the known result of p1 is overwritten by a later `! [p1, p2]` of the same process *)
-Theorem C03_await_discards_known_result_refuted :
-  exists w' ev pr',
-    run_slice 0 0 known_proc (d_act_ (AAwait [1; 2])) [] (set_procs new_worker [(0, known_proc)]) = Good (w', ev)
-    /\ alookup 0 (w_procs w') = Some pr' /\ alookup 1 (p_awaiting pr') = Some None.
-Proof. exact await_discards_known_result_refuted. Qed.
-Print Assumptions C03_await_discards_known_result_refuted.
+(* F72 (known): the snapshot answering `! [p1, p3]` is overtaken by the same-worker direct
+   notification of p3's completion: the awaiter is runnable knowing only p3's result while p1's is
+   still in the event queue (corpus/sim_c03.txt) *)
+Theorem C03_snapshot_overtaken_refuted :
+  exists s nd pr,
+    run (init 1) f72_schedule = Good s /\ nth_error (s_nodes s) 0 = Some nd /\
+    w_queue (n_w nd) = [0] /\
+    alookup 0 (w_procs (n_w nd)) = Some pr /\
+    p_awaiting pr = [(1, None); (2, Some (ROk 33))] /\
+    In (EResults 0 [(1, Some (ROk 11)); (2, None)]) (n_evt nd).
+Proof. exact snapshot_overtaken_by_local_notification. Qed.
+Print Assumptions C03_snapshot_overtaken_refuted.
